@@ -242,14 +242,17 @@ fn case_alarm() -> u32 {
     }
 }
 
-/// A worker may grow by 3 GiB beyond what it inherited: a runaway allocation in the code under
+/// Address-space headroom of a worker in GiB (3 in the quick tier, 12 in the thorough tier).
+pub static HEADROOM_GIB: AtomicUsize = AtomicUsize::new(3);
+
+/// A worker may grow by [`HEADROOM_GIB`] beyond what it inherited: a runaway allocation in the code under
 /// test then aborts this worker (reported as a death at that case) instead of exhausting the host.
 fn limit_address_space() {
     let vm_kib: u64 = std::fs::read_to_string("/proc/self/status")
         .ok()
         .and_then(|s| s.lines().find(|l| l.starts_with("VmSize:")).and_then(|l| l.split_whitespace().nth(1).and_then(|v| v.parse().ok())))
         .unwrap_or(4 << 20);
-    let lim = (vm_kib << 10) + (3u64 << 30);
+    let lim = (vm_kib << 10) + ((HEADROOM_GIB.load(Ordering::Relaxed) as u64) << 30);
     let rl = libc::rlimit { rlim_cur: lim, rlim_max: lim };
     unsafe { libc::setrlimit(libc::RLIMIT_AS, &rl) };
 }
